@@ -199,3 +199,32 @@ def load_known() -> List[dict]:
     except FileNotFoundError:
         return []
     return data.get("findings", [])
+
+
+class Only:
+    """Report proxy: a property takes over selected rules of another property's module (same rule ids; they are necessary
+    conditions of both properties).  Everything else the borrowed module reports (other rules, floors, known findings of
+    the other property) is dropped; engine errors still propagate."""
+
+    def __init__(self, rep, keep):
+        self._r = rep
+        self._keep = set(keep)
+
+    def __getattr__(self, n):
+        return getattr(self._r, n)
+
+    def ok(self, rule, *a, **k):
+        if rule in self._keep:
+            self._r.ok(rule, *a, **k)
+
+    def violation(self, rule, *a, **k):
+        if rule in self._keep:
+            self._r.violation(rule, *a, **k)
+
+    def undecide(self, rule, *a, **k):
+        if rule in self._keep or rule in ("engine", "corpus"):
+            self._r.undecide(rule, *a, **k)
+
+    def floor(self, rule, n):
+        if rule in self._keep:
+            self._r.floor(rule, n)
